@@ -564,7 +564,21 @@ def run_shard(shard, env):
         cases = gen_grid()
     else:
         rnd = random.Random("%s/%s/%s" % (shard["seed"], shard["persona"], shard["index"]))
-        cases = (gen(rnd, shard["persona"]) for _ in range(shard["count"]))
+
+        def with_twins():
+            # a terminal-relative padding is followed, now and then, by its near twin on the
+            # same terminal: one relative dimension off by one (-1 <-> -2, -5 <-> -6, 0 <-> -1)
+            for _ in range(shard["count"]):
+                case = gen(rnd, shard["persona"])
+                yield case
+                pd = case.get("pad")
+                if pd and pd.get("type") == "aligned" and (pd["width"] <= 0 or pd["height"] <= 0) and rnd.random() < 0.5:
+                    twin = dict(case, pad=dict(pd))
+                    key = rnd.choice([k for k in ("width", "height") if pd[k] <= 0])
+                    twin["pad"][key] = pd[key] - 1 if pd[key] % 2 else pd[key] + 1 if pd[key] < 0 else -1
+                    yield twin
+
+        cases = with_twins()
     for case in cases:
         try:
             if case["surface"] == "format-history":
